@@ -116,8 +116,16 @@ def threshold(ctx):
            "every pooled point must be re-assigned to exactly one group: %s" % (q.short(dc[0].args[2], 100) if dc else ""), dc[0] if dc else None)
     ft = [e for e in tr.calls() if e.callee == ("lib", "scipy.stats.norm.fit")]
     ra = tr.retval.single_atom() if tr.retval is not None else None
-    ok = len(ft) == 1 and ra is not None and ra[0] == "call" and ra[1] == "scipy.stats.norm.ppf" and T.same(ra[2][0], const(1) - P("alpha")) and \
-        tuple(ra[2][1:]) == (q.sub(ft[0].result, 0), q.sub(ft[0].result, 1))
+    ok = len(ft) == 1 and ra is not None and ra[0] == "call" and ra[1] == "scipy.stats.norm.ppf"
+    if ok:
+        # ppf(q, loc, scale), each positional or by keyword
+        kw = dict(ra[3])
+        pos = list(ra[2])
+        qv = pos[0] if pos else kw.get("q")
+        loc = pos[1] if len(pos) > 1 else kw.get("loc")
+        scale = pos[2] if len(pos) > 2 else kw.get("scale")
+        ok = qv is not None and T.same(qv, const(1) - P("alpha")) and (loc, scale) == (q.sub(ft[0].result, 0), q.sub(ft[0].result, 1)) \
+            and len(pos) + len(kw) == 3
     ctx.ob("POL", site, "threshold = (1 - alpha) quantile of the normal fitted to the permutation distances", ok, q.short(tr.retval, 160))
     col = q.collected(tr, ft[0].args[0]) if ft and ft[0].args else None
     ctx.ob("FRM", site, "sampling_times repetitions", col is not None and col[1] == P("sampling_times"), q.short(col[1], 60) if col else "the fitted sample is not one value per repetition")
@@ -145,13 +153,17 @@ def update(ctx):
         return a[2] if a is not None and a[0] == "getattr" else None
     ok = len(dc) == 1 and (attr_of(dc[0].args[0]), attr_of(dc[0].args[1]), attr_of(dc[0].args[2])) == ("nnps_matrix", "v1", "v2")
     ctx.ob("FRM", site, "actual distance from (nnps_matrix, v1, v2)", ok, "", dc[0] if dc else None)
-    ok = len(th) == 1 and dc and tuple(th[0].args[:3]) == tuple(dc[0].args[:3]) and tuple(th[0].args[3:]) == (A("sampling_times"), A("alpha"))
+    ok = False
+    if len(th) == 1 and dc:
+        b = q.bind(th[0])
+        ok = len(dc[0].args) >= 3 and (b.get("M_nnps"), b.get("v_ref"), b.get("v_test")) == tuple(dc[0].args[:3]) and \
+            (b.get("sampling_times"), b.get("alpha")) == (A("sampling_times"), A("alpha"))
     ctx.ob("FWD", site, "threshold from the same matrix and memberships with sampling_times and alpha", bool(ok), "", th[0] if th else None)
     ds = [e for e in tr.stores("_drift_state") if e.value == const("drift")]
     ctx.ob("ROLE", site, "drift store", len(ds) == 1, "")
     if ds and dc and th:
-        d_act = None
-        for e in tr.events[dc[0].seq:]:
+        d_act = dc[0].result if dc[0].callee[0] == "foreign" else None   # called through the partitioner object: not inlined
+        for e in (tr.events[dc[0].seq:] if d_act is None else ()):
             if e.kind == "return" and e.func.name == "compute_nnps_distance":
                 d_act = e.value
                 break
